@@ -574,6 +574,146 @@ theorem span_reparse_description (fl : Flags) (hts : fl.allowTypeSystem = true) 
     · rw [checkAll_cons]
       exact ⟨_, _, (check_tok ..).2 ⟨_, rfl, rfl, rfl⟩, by rw [checkAll_nil]⟩
 
+/-! ### members of type-system definitions: inside `type A {…}`, `input A {…}`, `enum A {…}`, `schema {…}` -/
+
+/-- `SOF k A { T } EOF` derives the one-definition document whose definition's view is `k A { j }`, when `T` derives `j`
+    whatever follows -/
+private theorem matches_kwA_block (fl : Flags) (hnl : fl.noLocation = false) (k : Text) (kl : Nat) (x : Definition)
+    (j' : Item) (T : List Tok) (n : Nat) (l1 : Tok)
+    (hv : definitionV x = .node (some (0, n + kl + 6)) [kw k, nameV ⟨[65], some (kl + 1, kl + 2)⟩, p .curlyL, j', p .curlyR])
+    (hck : ∀ l rest2, j'.check fl l (T ++ rest2) = some (l1, rest2)) :
+    Matches fl [documentV ⟨[x], some (0, n + kl + 6)⟩]
+      (Lex.sofTok :: ⟨.name, 0, kl, k⟩ :: ⟨.name, kl + 1, kl + 2, [65]⟩ :: ⟨.curlyL, kl + 3, kl + 4, [123]⟩ ::
+        (T ++ [⟨.curlyR, n + kl + 5, n + kl + 6, [125]⟩, eofT (n + kl + 6)])) := by
+  apply (matches_iff _ _ _).2
+  refine ⟨eofT (n + kl + 6), ?_⟩
+  rw [checkAll_cons]
+  refine ⟨eofT (n + kl + 6), [], ?_, by rw [checkAll_nil]⟩
+  simp only [documentV, List.map_cons, List.map_nil]
+  rw [check_node]
+  refine ⟨_, _, rfl, ?_, by rw [locOf_eq fl hnl]; rfl⟩
+  rw [checkAll_cons]
+  refine ⟨_, _, (check_tok ..).2 ⟨_, rfl, rfl, rfl⟩, ?_⟩
+  rw [List.cons_append, List.nil_append, checkAll_cons]
+  refine ⟨⟨.curlyR, n + kl + 5, n + kl + 6, [125]⟩, [eofT (n + kl + 6)], ?_, ?_⟩
+  · rw [hv, check_node]
+    refine ⟨_, _, rfl, ?_, by rw [locOf_eq fl hnl]⟩
+    rw [checkAll_cons]
+    refine ⟨_, _, (check_tok ..).2 ⟨_, rfl, rfl, rfl⟩, ?_⟩
+    rw [checkAll_cons]
+    refine ⟨⟨.name, kl + 1, kl + 2, [65]⟩, ⟨.curlyL, kl + 3, kl + 4, [123]⟩ ::
+      (T ++ [⟨.curlyR, n + kl + 5, n + kl + 6, [125]⟩, eofT (n + kl + 6)]), ?_, ?_⟩
+    · simp only [nameV]
+      rw [check_node]
+      refine ⟨_, _, rfl, ?_, by rw [locOf_eq fl hnl]⟩
+      rw [checkAll_cons]
+      exact ⟨_, _, (check_tok ..).2 ⟨_, rfl, rfl, rfl⟩, by rw [checkAll_nil]⟩
+    · rw [checkAll_cons]
+      refine ⟨_, _, (check_tok ..).2 ⟨_, rfl, rfl, rfl⟩, ?_⟩
+      rw [checkAll_cons]
+      refine ⟨_, _, hck _ _, ?_⟩
+      rw [checkAll_cons]
+      exact ⟨_, _, (check_tok ..).2 ⟨_, rfl, rfl, rfl⟩, by rw [checkAll_nil]⟩
+  · rw [checkAll_cons]
+    exact ⟨_, _, (check_tok ..).2 ⟨_, rfl, rfl, rfl⟩, by rw [checkAll_nil]⟩
+
+private def nmA' (x y : Nat) : Name := ⟨[65], some (x, y)⟩
+
+/-- FIELD DEFINITIONS (of object / interface type definitions and extensions): the spanned text inside `type A {σ⏎}` is
+    accepted by `parse` (flags with `allow_type_system`), and the result is the type `A` whose only field definition is the
+    node, moved to offset 8. -/
+theorem span_reparse_field_definition (fl : Flags) (hts : fl.allowTypeSystem = true) (s : Text) (d : Document)
+    (h : parseText fl s = some d) :
+    ∀ x ∈ d.definitions, ∀ fd : FieldDefinition, Item.Sub (fieldDefinitionV fd) (definitionV x) →
+      wfFieldDefinition fd = true → ∀ a b, fd.loc = some (a, b) →
+      a ≤ b ∧ b ≤ s.length ∧
+      parseText fl (K.type_ ++ [32, 65, 32, 123] ++ slice s a b ++ [10, 125]) =
+        some ⟨[.objectTypeDefinition none (nmA' 5 6) [] [] [(fd.mapLoc (locDown a)).mapLoc (locUp 8)] (some (0, b - a + 4 + 6))],
+          some (0, b - a + 4 + 6)⟩ := by
+  intro x hx fd hs hwf a b hloc
+  have hnode : ∃ is, fieldDefinitionV fd = .node (some (a, b)) is := ⟨_, by rw [← hloc]; rfl⟩
+  obtain ⟨is, hnode⟩ := hnode
+  obtain ⟨h1, h2, hnl, hlen, seg, htl, hc⟩ := doc_tiles fl s d h x hx _ hs a b is hnode
+  refine ⟨h1, h2, ?_⟩
+  rw [← fieldDefinitionV_down] at hc
+  have hnode0 : ∃ is0, fieldDefinitionV (fd.mapLoc (locDown a)) = .node (fd.mapLoc (locDown a)).loc is0 := ⟨_, rfl⟩
+  obtain ⟨is0, hnode0⟩ := hnode0
+  rw [hnode0] at hc
+  obtain ⟨f0, tl, l1, hseg, _, hck⟩ := ctx_check fl _ is0 seg (b - a)
+    (by rw [← hnode0]; exact fieldDefinitionV_solid _) (by rw [← hnode0]; exact fieldDefinitionV_plain _) hc
+  apply (parse_text_result fl _ _).2
+  refine ⟨_, tiles_kwA_block K.type_ 4 rfl rfl hlen htl, ?_, ?_⟩
+  · simp [wfDocument, wfDefinition, wfDirectives, wfFieldDefinition_mapLoc, hwf, hts]
+  · refine matches_kwA_block fl hnl K.type_ 4 _ (fieldDefinitionV ((fd.mapLoc (locDown a)).mapLoc (locUp 8))) _ (b - a)
+      (l1.up 8) ?_ ?_
+    · simp [definitionV, descV, optV, implementsV, directivesV, blockV, nmA']
+    · intro l rest2
+      have := hck 8 l rest2
+      rw [← hnode0, ← fieldDefinitionV_up] at this
+      exact this
+
+/-- INPUT VALUE DEFINITIONS (input fields; the same node kind as argument definitions): inside `input A {σ⏎}` -/
+theorem span_reparse_input_value_definition (fl : Flags) (hts : fl.allowTypeSystem = true) (s : Text) (d : Document)
+    (h : parseText fl s = some d) :
+    ∀ x ∈ d.definitions, ∀ iv : InputValueDefinition, Item.Sub (inputValueV iv) (definitionV x) →
+      wfInputValue iv = true → ∀ a b, iv.loc = some (a, b) →
+      a ≤ b ∧ b ≤ s.length ∧
+      parseText fl (K.input ++ [32, 65, 32, 123] ++ slice s a b ++ [10, 125]) =
+        some ⟨[.inputObjectTypeDefinition none (nmA' 6 7) [] [(iv.mapLoc (locDown a)).mapLoc (locUp 9)] (some (0, b - a + 5 + 6))],
+          some (0, b - a + 5 + 6)⟩ := by
+  intro x hx iv hs hwf a b hloc
+  have hnode : ∃ is, inputValueV iv = .node (some (a, b)) is := ⟨_, by rw [← hloc]; rfl⟩
+  obtain ⟨is, hnode⟩ := hnode
+  obtain ⟨h1, h2, hnl, hlen, seg, htl, hc⟩ := doc_tiles fl s d h x hx _ hs a b is hnode
+  refine ⟨h1, h2, ?_⟩
+  rw [← inputValueV_down] at hc
+  have hnode0 : ∃ is0, inputValueV (iv.mapLoc (locDown a)) = .node (iv.mapLoc (locDown a)).loc is0 := ⟨_, rfl⟩
+  obtain ⟨is0, hnode0⟩ := hnode0
+  rw [hnode0] at hc
+  obtain ⟨f0, tl, l1, hseg, _, hck⟩ := ctx_check fl _ is0 seg (b - a)
+    (by rw [← hnode0]; exact inputValueV_solid _) (by rw [← hnode0]; exact inputValueV_plain _) hc
+  apply (parse_text_result fl _ _).2
+  refine ⟨_, tiles_kwA_block K.input 5 rfl rfl hlen htl, ?_, ?_⟩
+  · simp [wfDocument, wfDefinition, wfDirectives, wfInputValue_mapLoc, hwf, hts]
+  · refine matches_kwA_block fl hnl K.input 5 _ (inputValueV ((iv.mapLoc (locDown a)).mapLoc (locUp 9))) _ (b - a)
+      (l1.up 9) ?_ ?_
+    · simp [definitionV, descV, optV, directivesV, blockV, nmA']
+    · intro l rest2
+      have := hck 9 l rest2
+      rw [← hnode0, ← inputValueV_up] at this
+      exact this
+
+/-- ENUM VALUE DEFINITIONS: inside `enum A {σ⏎}` -/
+theorem span_reparse_enum_value_definition (fl : Flags) (hts : fl.allowTypeSystem = true) (s : Text) (d : Document)
+    (h : parseText fl s = some d) :
+    ∀ x ∈ d.definitions, ∀ ev : EnumValueDefinition, Item.Sub (enumValueDefinitionV ev) (definitionV x) →
+      wfEnumValueDefinition ev = true → ∀ a b, ev.loc = some (a, b) →
+      a ≤ b ∧ b ≤ s.length ∧
+      parseText fl (K.enum_ ++ [32, 65, 32, 123] ++ slice s a b ++ [10, 125]) =
+        some ⟨[.enumTypeDefinition none (nmA' 5 6) [] [(ev.mapLoc (locDown a)).mapLoc (locUp 8)] (some (0, b - a + 4 + 6))],
+          some (0, b - a + 4 + 6)⟩ := by
+  intro x hx ev hs hwf a b hloc
+  have hnode : ∃ is, enumValueDefinitionV ev = .node (some (a, b)) is := ⟨_, by rw [← hloc]; rfl⟩
+  obtain ⟨is, hnode⟩ := hnode
+  obtain ⟨h1, h2, hnl, hlen, seg, htl, hc⟩ := doc_tiles fl s d h x hx _ hs a b is hnode
+  refine ⟨h1, h2, ?_⟩
+  rw [← enumValueDefinitionV_down] at hc
+  have hnode0 : ∃ is0, enumValueDefinitionV (ev.mapLoc (locDown a)) = .node (ev.mapLoc (locDown a)).loc is0 := ⟨_, rfl⟩
+  obtain ⟨is0, hnode0⟩ := hnode0
+  rw [hnode0] at hc
+  obtain ⟨f0, tl, l1, hseg, _, hck⟩ := ctx_check fl _ is0 seg (b - a)
+    (by rw [← hnode0]; exact enumValueDefinitionV_solid _) (by rw [← hnode0]; exact enumValueDefinitionV_plain _) hc
+  apply (parse_text_result fl _ _).2
+  refine ⟨_, tiles_kwA_block K.enum_ 4 rfl rfl hlen htl, ?_, ?_⟩
+  · simp [wfDocument, wfDefinition, wfDirectives, wfEnumValueDefinition_mapLoc, hwf, hts]
+  · refine matches_kwA_block fl hnl K.enum_ 4 _ (enumValueDefinitionV ((ev.mapLoc (locDown a)).mapLoc (locUp 8))) _ (b - a)
+      (l1.up 8) ?_ ?_
+    · simp [definitionV, descV, optV, directivesV, blockV, nmA']
+    · intro l rest2
+      have := hck 8 l rest2
+      rw [← hnode0, ← enumValueDefinitionV_up] at this
+      exact this
+
 /-! ### non-vacuity: `{a(x:[1]) @d ...F}` -/
 private def cdoc : Text := [123, 97, 40, 120, 58, 91, 49, 93, 41, 32, 64, 100, 32, 46, 46, 46, 70, 125]
 
